@@ -49,6 +49,10 @@ def member_cells():
                     cells.append({"kind": kind, "attr": attr, "stmt": "none", "place": "-", "type_default": tdef, "type_access": taccess})
                     if kind == "binding":
                         cells.append({"kind": kind, "attr": attr, "stmt": "none", "place": "-", "type_default": tdef, "type_access": taccess, "multi": True})
+    # a generic binding: the accessibility of the generic name itself (its specific binding is another entity)
+    for tdef in ("none", "private"):
+        for attr in ("none", "public", "private"):
+            cells.append({"kind": "binding", "attr": attr, "stmt": "none", "place": "-", "type_default": tdef, "type_access": "none", "generic": True})
     # an extending type that overrides a binding of its parent: the parent's binding plays no part in the accessibility of the new one
     for pacc in ("none", "private"):
         for tdef in ("none", "private"):
@@ -191,7 +195,10 @@ def render_module(mname, cells, default, placement, st: fgen.Style, rng: random.
                 lines.append(kw("contains"))
                 if cell["type_default"] == "private":
                     lines.append(kw("private"))
-                if cell.get("multi"):
+                if cell.get("generic"):
+                    lines.append(f"{kw('procedure')} :: gs{n} => {st.nm(impl)}")
+                    lines.append(f"{kw('generic')}{a} :: {nm} => gs{n}")
+                elif cell.get("multi"):
                     impl2 = f"{mname}_bj{n}"
                     lines.append(f"{kw('procedure')}{a} :: {nm} => {st.nm(impl)}, zz{n} => {st.nm(impl2)}")
                     contains += [f"{kw('subroutine')} {impl2}(self)", f"{kw('class')}({tn}) :: self", st.kw("end") + " " + kw("subroutine")]
@@ -327,7 +334,7 @@ def case(arg):
             exp = expected_access(cell, default)
             obs = got.get(ename)
             key = (cell["kind"] + ("@interface" if ename.endswith("@interface") else ""), cell["attr"], cell["stmt"], cell["place"], default, placement,
-                   cell.get("type_default"), cell.get("type_access"), cell.get("multi", False), cell.get("overrides"))
+                   cell.get("type_default"), cell.get("type_access"), cell.get("multi", False), cell.get("overrides"), cell.get("generic", False))
             keys.add(key)
             if obs != exp:
                 kf = {"kind": "wrong_access", "entity": cell["kind"] + ("@interface" if ename.endswith("@interface") else ""), "attr": cell["attr"], "stmt": cell["stmt"], "place": cell["place"],
@@ -337,6 +344,8 @@ def case(arg):
                     kf["type_access"] = cell["type_access"]
                 if cell.get("overrides"):
                     kf["overrides_parent_binding"] = cell["overrides"]
+                if cell.get("generic"):
+                    kf["generic_binding"] = True
                 viol.append({"kf": kf, "w": {"module": mname, "entity": ename, "cell": cell, "expected": exp, "observed": obs,
                                              "source": texts[mname], "seed": seed}})
             # `protected` is recorded for variables: where the accessibility comes from the declaration alone (no access statement
